@@ -294,7 +294,7 @@ async function parentMain(id, tier, opts) {
       evaluations: sum('evaluations'),
       distinct_nontrivial: distinct,
       distinct_outcomes: hashes.size,
-      rule: check.rule,
+      rule: check.rule + ' Spaces enumerated in this run: ' + Object.keys(spaces).join('; ') + '.',
       samples: ok.length ? ok.find((r) => r.samples.length) ? ok.find((r) => r.samples.length).samples : [] : [],
       exhaustive: !capped && engineErrorCount === 0,
       bounds: spaces,
